@@ -1450,8 +1450,8 @@ class VacancyMediated(object):
                            for PS in
                            [self.GFstarset.states[s[0]] for s in self.GFstarset.stars]])
             self.GFvalues[vTK] = GF.copy()
-            self.Lvvvalues[vTK] = L0vv
-            self.etavvalues[vTK] = etav
+            self.Lvvvalues[vTK] = L0vv.copy()
+            self.etavvalues[vTK] = etav.copy()
 
         # 2. set up probabilities for solute-vacancy configurations
         probVsites = np.array([np.exp(min(bFV) - bFV[wi]) for wi in self.invmap])
@@ -1613,7 +1613,7 @@ class VacancyMediated(object):
                            - biasVvec[self.OSindices]
                            ) / self.N
 
-        return L0vv, D0ss + L1ss, D0sv + L1sv, D0vv + D2vv + L1vv
+        return L0vv.copy(), D0ss + L1ss, D0sv + L1sv, D0vv + D2vv + L1vv  # copy: L0vv is the cached array
 
 
 yaml.add_representer(vacancyThermoKinetics, vacancyThermoKinetics.vacancyThermoKinetics_representer)
